@@ -277,7 +277,7 @@ func handlerCalls(fn *ssa.Function, fv *types.Var) []*ssa.Call {
 		if _, isB := c.Call.Value.(*ssa.Builtin); isB {
 			return
 		}
-		if _, f := loadedField(c.Call.Value); f == fv {
+		if _, f := loadedField(canonPhi(c.Call.Value)); f == fv {
 			out = append(out, c)
 		}
 	})
